@@ -10,11 +10,11 @@ Proof. exact policy_cases. Qed.
 Print Assumptions C13_policy_bits.
 
 (* at an HTML element: nothing, one copy of the replacement text, or the escaped element text *)
-Theorem C13_policy_cases : forall s html,
-  (html_policy (s_mode s) = PDrop -> htmlSafeModeFilter s html = []) /\
-  (html_policy (s_mode s) = PReplace -> htmlSafeModeFilter s html = s_repl s) /\
-  (html_policy (s_mode s) = PEscape -> htmlSafeModeFilter s html = escape html) /\
-  (html_policy (s_mode s) = PRaw -> htmlSafeModeFilter s html = html).
+Theorem C13_policy_cases : forall (s : ienv) html,
+  (html_policy (en_mode s) = PDrop -> htmlSafeModeFilter s html = []) /\
+  (html_policy (en_mode s) = PReplace -> htmlSafeModeFilter s html = en_repl s) /\
+  (html_policy (en_mode s) = PEscape -> htmlSafeModeFilter s html = escape html) /\
+  (html_policy (en_mode s) = PRaw -> htmlSafeModeFilter s html = html).
 Proof. exact filter_cases. Qed.
 Print Assumptions C13_policy_cases.
 
